@@ -39,7 +39,9 @@ def random_docs(schema_name: str, n: int, rng: random.Random, size=1.0, max_dept
     for _ in range(n):
         toks = g.doc()
         try:
-            out.append((toks, proj.unproj(sch, toks)))
+            rd = proj.unproj(sch, toks)
+            # the document as the library sees it (e.g. explicit null attributes are defaulted on construction)
+            out.append((proj.proj(rd), rd))
         except Exception:  # generator produced something the library refuses to build: not a case
             continue
     return sch, js, out
